@@ -116,9 +116,12 @@ type dataFamily struct {
 	familyTime     int64
 	ref            atomic.Int32
 	isFlushing     atomic.Bool
-	lastFlushTime  int64
-	interval       timeutil.Interval
-	mutex          sync.Mutex
+	// replicaLock makes write+commit sequence of one replica entry atomic with the switch of memory database,
+	// read lock: from ValidateSequence(valid) to CommitSequence, write lock: switch memory database in Flush.
+	replicaLock   sync.RWMutex
+	lastFlushTime int64
+	interval      timeutil.Interval
+	mutex         sync.Mutex
 }
 
 // newDataFamily creates a data family storage unit
@@ -271,10 +274,12 @@ func (f *dataFamily) Flush() error {
 		startTime := time.Now()
 
 		// add lock when switch memory database
+		f.replicaLock.Lock()
 		f.mutex.Lock()
 		if f.immutableMemDB != nil || f.mutableMemDB == nil || f.mutableMemDB.NumOfSeries() == 0 {
 			// if immutable memory database not nil or no data need flush, return it
 			f.mutex.Unlock()
+			f.replicaLock.Unlock()
 			return nil
 		}
 		waitingFlushMemDB := f.mutableMemDB
@@ -288,6 +293,7 @@ func (f *dataFamily) Flush() error {
 		}
 		f.immutableSeq = immutableSeq
 		f.mutex.Unlock()
+		f.replicaLock.Unlock()
 
 		if err := f.flushMemoryDatabase(immutableSeq, waitingFlushMemDB, true); err != nil {
 			return err
@@ -573,10 +579,17 @@ func (f *dataFamily) ValidateSequence(leader int32, seq int64) bool {
 	f.mutex.Lock()
 	defer f.mutex.Unlock()
 
+	valid := true
 	if seqForLeader, ok := f.seq[leader]; ok {
-		return seq > seqForLeader.Load()
+		valid = seq > seqForLeader.Load()
 	}
-	return true
+	if valid {
+		// released by CommitSequence
+		f.mutex.Unlock()
+		f.replicaLock.RLock()
+		f.mutex.Lock()
+	}
+	return valid
 }
 
 // CommitSequence commits written sequence after write data.
@@ -587,6 +600,7 @@ func (f *dataFamily) CommitSequence(leader int32, seq int64) {
 	seqForLeader := f.seq[leader]
 	seqForLeader.Store(seq)
 	f.seq[leader] = seqForLeader
+	f.replicaLock.RUnlock()
 }
 
 // AckSequence acknowledges sequence after memory database flush successfully.
